@@ -14,9 +14,9 @@ def run(tier):
     rep = Report(PID, tier)
     wd = workdir('c02')
     sd = seed()
-    variants = 12 if tier == 'quick' else 160
-    ndef = 1500 if tier == 'quick' else 20000
-    nasm = 2500 if tier == 'quick' else 40000
+    variants = 30 if tier == 'quick' else 300
+    ndef = 6000 if tier == 'quick' else 60000
+    nasm = 8000 if tier == 'quick' else 80000
     n = len(simdrv.slots())
     with mp.get_context('fork').Pool(16) as pool:
         dis = pool.map(asmdrv.gen_dis, [(sd * 31 + k, list(range(k, n, 16)), variants) for k in range(16)])
